@@ -12,7 +12,8 @@
       implementation's acceptance only raises the inert indicator 9;
     - correspondence: every lookup answer equals what the machine of Radix/Machine.v
       ([lookup false] = the code as it is since fix e897fef) and the compressed tree of
-      Radix/Tree.v (the transcription of tree.go, built from the accepted Adds) compute;
+      Radix/Tree.v (the transcription of tree.go, built from the accepted Adds) compute
+      (the tree model only when its own acceptance agrees with the implementation's);
     - property: every lookup answer equals [spec_lookup] on that content with every
       expression's flag as the PROPERTY states it ([respec]: the conjunction of the
       flags of its rules);
@@ -131,14 +132,14 @@ Definition accepted (l : list add_in) : list (addop rval) :=
 
 Definition onat_eqb : option nat -> option nat -> bool := option_eqb Nat.eqb.
 
-Definition check_lk (impl_fixed : bool) (sd : option (db rval)) (t : tree rval) (tbl : list (nat * bool)) (l : lk) : lv :=
+Definition check_lk (impl_fixed : bool) (sd : option (db rval)) (t : tree rval) (tree_in : bool) (tbl : list (nat * bool)) (l : lk) : lv :=
   let path := s2l (l_path l) in
   let m := m_cap (l_ok l) (l_modes l) (s2l (l_needle l)) in
   match sd with
   | None => {| lv_corr := false; lv_prop := false; lv_g1 := false; lv_g2 := false; lv_g3 := false |}
   | Some d =>
     {| lv_corr := onat_eqb (found_id (find_in (negb impl_fixed) d path m)) (l_obs l)
-                  && onat_eqb (found_id (tfind impl_fixed t path m)) (l_obs l);
+                  && (negb tree_in || onat_eqb (found_id (tfind impl_fixed t path m)) (l_obs l));
        lv_prop := onat_eqb (found_id (spec_lookup (respec (vflag_of tbl) d) path m)) (l_obs l);
        lv_g1 := negb impl_fixed && guard_F1 d path m;
        lv_g2 := guard_F2 (vflag_of tbl) d path m;
@@ -156,7 +157,8 @@ Definition check_tree (impl_fixed : bool) (c : case) : verdict :=
   let tadds_same := list_eqb (option_eqb add_obs_eqb) (map tkind_of (snd (tload empty_tree ops)))
                              (map (fun a => Some (a_obs a)) (c_adds c)) in
   let shape_same := match sd with Some d => tree_ok t d | None => false end in
-  combine (adds_same && tadds_same && shape_same) (map (check_lk impl_fixed sd t tbl) (c_lks c)).
+  (* the tree model takes part in the correspondence only if it accepted what the implementation accepted *)
+  combine (adds_same && tadds_same && shape_same) (map (check_lk impl_fixed sd t (tadds_same && shape_same) tbl) (c_lks c)).
 
 (** ** stream "repo" *)
 
@@ -188,14 +190,14 @@ Definition accepted_sets (l : list rs_in) : list (addop rval) :=
 Definition rule_flags (l : list rs_in) : list (nat * bool) :=
   flat_map (fun s => map (fun r => (r_id r, r_bt r)) (s_rules s)) l.
 
-Definition check_rlk (impl_fixed : bool) (dflt : bool) (sd : option (db rval)) (t : tree rval) (tbl : list (nat * bool)) (l : rlk) : lv :=
+Definition check_rlk (impl_fixed : bool) (dflt : bool) (sd : option (db rval)) (t : tree rval) (tree_in : bool) (tbl : list (nat * bool)) (l : rlk) : lv :=
   let path := s2l (rl_path l) in
   let m := m_cap (rl_ok l) (rl_modes l) (s2l (rl_needle l)) in
   match sd with
   | None => {| lv_corr := false; lv_prop := false; lv_g1 := false; lv_g2 := false; lv_g3 := false |}
   | Some d =>
     {| lv_corr := outcome_eqb (find_rule (negb impl_fixed) d dflt path m) (rl_obs l)
-                  && outcome_eqb (outcome_of dflt (tfind impl_fixed t path m)) (rl_obs l);
+                  && (negb tree_in || outcome_eqb (outcome_of dflt (tfind impl_fixed t path m)) (rl_obs l));
        lv_prop := outcome_eqb (spec_find_rule (respec (vflag_of tbl) d) dflt path m) (rl_obs l);
        lv_g1 := negb impl_fixed && guard_F1 d path m;
        lv_g2 := guard_F2 (vflag_of tbl) d path m;
@@ -210,7 +212,7 @@ Definition check_repo (impl_fixed : bool) (c : rcase) : verdict :=
   let sets_same := list_eqb Bool.eqb (snd (load_sets [] (rc_sets c))) (map s_obs (rc_sets c)) in
   let tsets_same := list_eqb Bool.eqb (snd (tload_sets empty_tree (rc_sets c))) (map s_obs (rc_sets c)) in
   let shape_same := match sd with Some d => tree_ok t d | None => false end in
-  combine (sets_same && tsets_same && shape_same) (map (check_rlk impl_fixed (rc_default c) sd t tbl) (rc_lks c)).
+  combine (sets_same && tsets_same && shape_same) (map (check_rlk impl_fixed (rc_default c) sd t (tsets_same && shape_same) tbl) (rc_lks c)).
 
 (** ** stream "history": create / update / delete of rule sets through the real rule-set
     processor, then lookups.  Correspondence: the history model of C02/Model.v (the code as it
